@@ -2,123 +2,33 @@ package main
 
 import (
 	"fmt"
-	"go/token"
-	"go/types"
 	"strings"
-
-	"golang.org/x/tools/go/ssa"
 )
 
 func init() {
 	register(&propDef{
 		id: "C38", run: runC38, minOblig: 17,
-		explanation: "Decides structural clauses of the SSH public-key formats: (type binding) every successful return of ParseAuthorizedKey, ParseKnownHosts and knownhosts.parseLine lies behind the equality of the declared key-type token with the parsed key's Type(); (options belong to the returned line) the options value returned by ParseAuthorizedKey is never a value carried over from an earlier loop iteration (an earlier skipped line); (wire layout agreement) for RSA, DSA, ECDSA, Ed25519, SK-ECDSA and SK-Ed25519 the struct marshalled by Marshal is the type name followed by exactly the fields, in the same order and of the same Go types, that the corresponding parse function unmarshals (minus the trailing ssh:\"rest\" field); (dispatch) parsePubKey dispatches each key algorithm name to the parser of that format and every certificate algorithm to parseCert with the mapped base algorithm; ParsePublicKey rejects trailing bytes; (range guards, evaluated) RSA: modulus <= 16384 bits, exponent <= 24 bits, odd and >= 3; DSA: 0 < Y < P; Ed25519: exact key length. NOT decided: ssh-keygen byte equality, fingerprints, the option-splitting grammar.",
+		explanation: "Decides structural clauses of the SSH public-key formats, each independently of how the code is factored into helpers. (type binding) For ParseAuthorizedKey, ParseKnownHosts and knownhosts.parseLine: every return that carries a key K and a possibly-nil error is reachable only after K.Type() was found equal to a token computed from the input text, compared on that very key (K is followed through phis, the results of same-package helpers and into helper parameters); the equality may be ==/!= on strings or bytes.Equal on the []byte forms, and may be established through the nil-error / true / non-nil-key result of a helper all of whose returns in that state lie behind the comparison. ParseAuthorizedKey returns keys both without options and with the options split from the line. (options belong to the returned line) the []string returned with a key is never a value that travelled around the back edge of a loop in which the returned key is parsed (a value computed for an earlier, skipped line). (wire layout agreement) for RSA, DSA, ECDSA, Ed25519, SK-ECDSA and SK-Ed25519 the struct passed to Marshal is a string (the type name) followed by exactly the fields, in the same order and of the same Go types, of the struct the parse function passes to Unmarshal (minus the trailing ssh:\"rest\" field); where neighbouring fields have the same type (E,N / P,Q,G,Y) the position must carry the same key field on both sides, decided by data flow (the key field the parser stores the wire field into = the key field Marshal computes it from), falling back to the wire-struct field names only where the data flow is not determined. (dispatch) parsePubKey, interpreted once per algorithm name with helpers of the package interpreted in place, calls exactly the parser of that format for the 8 key formats, parseCert for the 8 certificate formats, and no parser for an unknown name. (trailing bytes) ParsePublicKey, interpreted with parsePubKey leaving 0, 1 or 7 bytes, returns a key only for 0. (range guards) parseRSA, parseDSA and parseED25519 are interpreted (helpers in place, ssh.Unmarshal succeeding) with the math/big observers BitLen/Int64/IsInt64/Sign/Bit/Cmp answered according to the ROLE of their receiver (the wire field that flows into rsa.PublicKey.N / .E, the DSA Y / P) over a finite grid of values: RSA accepts iff modulus <= 16384 bits, exponent <= 24 bits, odd and >= 3; DSA accepts iff 0 < Y < P, and every key-carrying return lies behind checkDSAParams == nil (value-sensitive, across helpers); Ed25519 accepts iff the single []byte payload has exactly 32 bytes. A package helper that cannot be interpreted over the finite domain is taken to succeed. NOT decided: ssh-keygen byte equality, fingerprints, the option-splitting grammar, that the compared token is the field immediately preceding the key blob.",
 		assumptions: []string{"ssh.Marshal/Unmarshal encode struct fields in declaration order (C24)"},
 	})
-	tech("C38", "must-cross CFG rules, loop-carried-value (phi) check, struct-type agreement between marshal and parse sites via go/types, finite-domain evaluation of range guards")
-}
-
-// wireStructs returns the struct types of the allocs passed (as pointer) to the named call in fn.
-func wireStructs(fn *ssa.Function, callee string) []*types.Struct {
-	var out []*types.Struct
-	for _, ci := range callsNamed(fn, callee) {
-		idx := 0
-		if callee == "ssh.Unmarshal" {
-			idx = 1
-		}
-		if mi, ok := ci.Common().Args[idx].(*ssa.MakeInterface); ok {
-			if st := derefStruct(mi.X.Type()); st != nil {
-				out = append(out, st)
-			}
-		}
-	}
-	return out
+	tech("C38", "value-sensitive interprocedural must-cross (gate established through helper results), loop-carried-value (phi) check on the per-line loop, struct-type agreement between marshal and parse sites via go/types with field roles by data flow, abstract interpretation (pathWalker, helpers in place) of the range guards, the dispatch switch and the trailing-bytes check")
 }
 
 func runC38(c *Ctx) {
 	sweepC38(c)
-	// ---- (a) type binding
+	// ---- (a) type binding (c38_bind.go): every key-carrying return, value-sensitive and across helpers
 	for _, spec := range []struct{ pkg, fn string }{{"ssh", "ParseAuthorizedKey"}, {"ssh", "ParseKnownHosts"}, {"ssh/knownhosts", "parseLine"}} {
 		f := c.fn(spec.pkg, spec.fn)
 		if f == nil {
 			continue
 		}
-		var eq []edge
-		n := 0
-		allInstrs(f, func(in ssa.Instruction) {
-			bo, ok := in.(*ssa.BinOp)
-			if !ok || (bo.Op != token.EQL && bo.Op != token.NEQ) {
-				return
-			}
-			isType := func(v ssa.Value) bool {
-				call, ok := v.(*ssa.Call)
-				return ok && call.Call.IsInvoke() && call.Call.Method.Name() == "Type"
-			}
-			if isType(bo.X) || isType(bo.Y) {
-				y, _ := boolEdges(bo, bo.Op == token.EQL)
-				eq = append(eq, y...)
-				n++
-			}
-		})
-		errIdx := f.Signature.Results().Len() - 1
-		acc := acceptReturns(f, errIdx)
-		// only returns that actually carry a key
-		var keyed []ssa.Instruction
-		for _, t := range acc {
-			r := t.(*ssa.Return)
-			hasKey := false
-			for i := 0; i < len(r.Results); i++ {
-				if strings.HasSuffix(r.Results[i].Type().String(), "PublicKey") && !isNilConst(retVal(r, i)) {
-					hasKey = true
-				}
-			}
-			if hasKey {
-				keyed = append(keyed, t)
-			}
-		}
-		c.mustCross("C38.type-binding", spec.pkg+"."+spec.fn, f, keyed, eq, "declared key type == parsed key's Type()")
+		c.c38TypeBinding(spec.pkg+"."+spec.fn, f)
 		if spec.fn == "ParseAuthorizedKey" {
-			c.check(n == 2, "C38.type-binding", "ParseAuthorizedKey both stages", f, "both the plain and the options-prefixed stage compare the type", fmt.Sprintf("%d type comparisons, expected 2", n))
-			// options freshness
-			carried := false
-			var at ssa.Instruction
-			for _, t := range keyed {
-				r := t.(*ssa.Return)
-				for i := range r.Results {
-					if r.Results[i].Type().String() != "[]string" {
-						continue
-					}
-					seen := map[*ssa.Phi]bool{}
-					var walk func(v ssa.Value)
-					walk = func(v ssa.Value) {
-						p, ok := v.(*ssa.Phi)
-						if !ok || seen[p] {
-							return
-						}
-						seen[p] = true
-						// the per-line loop is the outermost loop containing the return
-						var outer *ssa.BasicBlock
-						for e := range backEdges(f) {
-							h := e.to()
-							if h.Dominates(r.Block()) && (outer == nil || h.Dominates(outer)) {
-								outer = h
-							}
-						}
-						if outer != nil && p.Block() == outer {
-							carried = true
-							at = r
-						}
-						for _, ev := range p.Edges {
-							walk(ev)
-						}
-					}
-					walk(retVal(r, i))
-				}
-			}
-			c.check(!carried, "C38.options-fresh", "ParseAuthorizedKey options", at, "the options returned were split from the line of the returned key", "the options returned with a key can be a value left over from an earlier (skipped) line")
+			c.c38BothForms("ParseAuthorizedKey both line forms", f)
+			c.c38OptionsRule(f)
 		}
 	}
-	// ---- (b) wire layout agreement
+	// ---- (b) wire layout agreement (roles by data flow: c38_walk.go)
 	for _, spec := range []struct{ parse, marshal string }{
 		{"parseRSA", "(*rsaPublicKey).Marshal"},
 		{"parseDSA", "(*dsaPublicKey).Marshal"},
@@ -131,7 +41,7 @@ func runC38(c *Ctx) {
 		if pf == nil || mf == nil {
 			continue
 		}
-		ps, ms := wireStructs(pf, "ssh.Unmarshal"), wireStructs(mf, "ssh.Marshal")
+		ps, ms := c38WireStructs(pf, "ssh.Unmarshal"), c38WireStructs(mf, "ssh.Marshal")
 		if len(ps) != 1 || len(ms) != 1 {
 			c.fail("C38.layout", spec.parse+" / "+spec.marshal, pf, fmt.Sprintf("wire structs not found (%d parse, %d marshal)", len(ps), len(ms)))
 			continue
@@ -149,214 +59,48 @@ func runC38(c *Ctx) {
 			ml = append(ml, m.Field(i).Type().String()+tagOf(m.Tag(i)))
 		}
 		// Where neighbouring fields have the same Go type (E,N / P,Q,G,Y) the
-		// types alone cannot show a swap: within such runs the field names
-		// (the RFC's names for the values) must agree too.
+		// types alone cannot show a swap. What a position carries is decided by
+		// data flow: the key field the parser stores that wire field into must be
+		// the key field Marshal computes that wire field from. The names of the
+		// wire-struct fields (local to each function) are compared only where the
+		// data flow does not determine the role on both sides.
+		prole, mrole := c.c38ParseRoles(pf, p), c.c38MarshalRoles(mf, m)
 		base := append([]string{}, pl...)
 		for j := 0; j < len(base) && j < len(ml); j++ {
 			if (j > 0 && base[j] == base[j-1]) || (j+1 < len(base) && base[j] == base[j+1]) {
-				pl[j] = p.Field(j).Name() + " " + pl[j]
-				ml[j] = m.Field(j+1).Name() + " " + ml[j]
+				if len(prole[j]) > 0 && len(mrole[j+1]) > 0 {
+					if c38Meet(prole[j], mrole[j+1]) {
+						pl[j] = "<" + mrole.name(j+1) + "> " + pl[j]
+					} else {
+						pl[j] = "<" + prole.name(j) + "> " + pl[j]
+					}
+					ml[j] = "<" + mrole.name(j+1) + "> " + ml[j]
+				} else {
+					pl[j] = p.Field(j).Name() + " " + pl[j]
+					ml[j] = m.Field(j+1).Name() + " " + ml[j]
+				}
 			}
 		}
 		c.check(okName && strings.Join(pl, ",") == strings.Join(ml, ","), "C38.layout", spec.parse+" / "+spec.marshal, mf,
 			fmt.Sprintf("name + %v on both sides", pl), fmt.Sprintf("Marshal writes name(%v)+%v but the parser reads %v", okName, ml, pl))
 	}
-	// ---- (c) dispatch
+	// ---- (c) dispatch, trailing bytes (interpreted: c38_walk.go)
 	if f := c.fn("ssh", "parsePubKey"); f != nil {
-		want := map[string]string{
-			"ssh-rsa": "ssh.parseRSA", "ssh-dss": "ssh.parseDSA",
-			"ecdsa-sha2-nistp256": "ssh.parseECDSA", "ecdsa-sha2-nistp384": "ssh.parseECDSA", "ecdsa-sha2-nistp521": "ssh.parseECDSA",
-			"sk-ecdsa-sha2-nistp256@openssh.com": "ssh.parseSKECDSA", "ssh-ed25519": "ssh.parseED25519", "sk-ssh-ed25519@openssh.com": "ssh.parseSKEd25519",
-		}
-		certs := []string{"ssh-rsa-cert-v01@openssh.com", "ssh-dss-cert-v01@openssh.com", "ecdsa-sha2-nistp256-cert-v01@openssh.com", "ecdsa-sha2-nistp384-cert-v01@openssh.com", "ecdsa-sha2-nistp521-cert-v01@openssh.com", "sk-ecdsa-sha2-nistp256-cert-v01@openssh.com", "ssh-ed25519-cert-v01@openssh.com", "sk-ssh-ed25519-cert-v01@openssh.com"}
-		// string switch: collect the comparisons algo == const and bind them one at a time
-		var cmps []*ssa.BinOp
-		allInstrs(f, func(in ssa.Instruction) {
-			if bo, ok := in.(*ssa.BinOp); ok && bo.Op == token.EQL && bo.X == ssa.Value(f.Params[1]) {
-				if _, ok := constString(bo.Y); ok {
-					cmps = append(cmps, bo)
-				}
-			}
-		})
-		route := func(name string) string {
-			e := newEnv()
-			for _, bo := range cmps {
-				s, _ := constString(bo.Y)
-				if s == name {
-					e.bind(bo, 1)
-				} else {
-					e.bind(bo, 0)
-				}
-			}
-			e.solve(f)
-			got := ""
-			allInstrs(f, func(in ssa.Instruction) {
-				if call, ok := in.(*ssa.Call); ok && e.reach[call.Block()] {
-					n := short(calleeName(&call.Call))
-					if strings.HasPrefix(n, "ssh.parse") {
-						got = n
-					}
-				}
-			})
-			return got
-		}
-		bad := ""
-		for name, w := range want {
-			if got := route(name); got != w {
-				bad = fmt.Sprintf("algorithm %q is parsed by %q, expected %s", name, got, w)
-			}
-		}
-		for _, name := range certs {
-			if got := route(name); got != "ssh.parseCert" {
-				bad = fmt.Sprintf("certificate algorithm %q is parsed by %q, expected ssh.parseCert", name, got)
-			}
-		}
-		if got := route("no-such-algorithm"); got != "" {
-			bad = "an unknown algorithm name reaches a parser: " + got
-		}
-		c.check(bad == "", "C38.dispatch", "parsePubKey", f, fmt.Sprintf("%d key and %d certificate algorithm names reach their parser; unknown names reach none", len(want), len(certs)), bad)
+		c.c38Dispatch(f)
 	}
 	if f := c.fn("ssh", "ParsePublicKey"); f != nil {
-		var rest ssa.Value
-		for _, ci := range callsNamed(f, "ssh.parsePubKey") {
-			for _, v := range resultN(ci.(*ssa.Call), 1) {
-				rest = v
-			}
-		}
-		bad := ""
-		if rest == nil {
-			bad = "parsePubKey not called"
-		} else {
-			for _, n := range []int64{0, 1, 7} {
-				e := newEnv()
-				e.bindLen(f, rest, n)
-				e.solve(f)
-				okRet := false
-				for _, r := range returnsOf(f) {
-					if e.reach[r.Block()] && !isNilConst(retVal(r, 0)) {
-						okRet = true
-					}
-				}
-				if okRet != (n == 0) {
-					bad = fmt.Sprintf("%d trailing bytes: a key is returned=%v", n, okRet)
-				}
-			}
-		}
-		c.check(bad == "", "C38.trailing", "ParsePublicKey", f, "trailing bytes after the key blob are rejected", bad)
+		c.c38Trailing(f)
 	}
-	// ---- (d) range guards
+	// ---- (d) range guards (interpreted: c38_walk.go)
 	if f := c.fn("ssh", "parseRSA"); f != nil {
-		var nBits, eBits, eVal ssa.Value
-		for _, ci := range callsNamed(f, "(*math/big.Int).BitLen") {
-			if _, fld, _, ok := fieldOf(ci.Common().Args[0]); ok && fld == "N" {
-				nBits = callValue(ci)
-			} else if ok && fld == "E" {
-				eBits = callValue(ci)
-			}
-		}
-		for _, ci := range callsNamed(f, "(*math/big.Int).Int64") {
-			eVal = callValue(ci)
-		}
-		bad := ""
-		if nBits == nil || eBits == nil || eVal == nil {
-			bad = "size/exponent reads not found"
-		} else {
-			for _, nb := range []int64{1024, 16384, 16385, 1 << 20} {
-				for _, eb := range []int64{2, 17, 24, 25, 64} {
-					for _, ev := range []int64{-1, 0, 1, 2, 3, 4, 65537, 65538} {
-						e := newEnv()
-						e.bind(nBits, nb)
-						e.bind(eBits, eb)
-						e.bind(eVal, ev)
-						e.bindNilTests(f, func(v ssa.Value) bool { return strings.HasSuffix(v.Type().String(), "error") }, true)
-						e.solve(f)
-						got := false
-						for _, t := range acceptReturns(f, 2) {
-							if e.reach[t.Block()] {
-								got = true
-							}
-						}
-						want := nb <= 16384 && eb <= 24 && ev >= 3 && ev&1 == 1
-						if got != want {
-							bad = fmt.Sprintf("N bits=%d E bits=%d E=%d: accepted=%v, specification %v", nb, eb, ev, got, want)
-						}
-					}
-				}
-			}
-		}
-		c.check(bad == "", "C38.range", "parseRSA", f, "modulus <= 16384 bits, exponent <= 24 bits, odd and >= 3", bad)
+		c.c38RangeRSA(f)
 	}
 	if f := c.fn("ssh", "parseDSA"); f != nil {
-		var sg, cp ssa.Value
-		for _, ci := range callsNamed(f, "(*math/big.Int).Sign") {
-			if _, fld, _, ok := fieldOf(ci.Common().Args[0]); ok && fld == "Y" {
-				sg = callValue(ci)
-			}
-		}
-		for _, ci := range callsNamed(f, "(*math/big.Int).Cmp") {
-			_, f0, _, ok0 := fieldOf(ci.Common().Args[0])
-			_, f1, _, ok1 := fieldOf(ci.Common().Args[1])
-			if ok0 && ok1 && f0 == "Y" && f1 == "P" {
-				cp = callValue(ci)
-			}
-		}
-		bad := ""
-		if sg == nil || cp == nil {
-			bad = "Y range tests not found"
-		} else {
-			for _, s := range []int64{-1, 0, 1} {
-				for _, k := range []int64{-1, 0, 1} {
-					e := newEnv()
-					e.bind(sg, s)
-					e.bind(cp, k)
-					e.bindNilTests(f, func(v ssa.Value) bool { return strings.HasSuffix(v.Type().String(), "error") }, true)
-					e.solve(f)
-					got := false
-					for _, t := range acceptReturns(f, 2) {
-						if e.reach[t.Block()] {
-							got = true
-						}
-					}
-					if got != (s > 0 && k < 0) {
-						bad = fmt.Sprintf("sign(Y)=%d cmp(Y,P)=%d: accepted=%v", s, k, got)
-					}
-				}
-			}
-		}
-		c.check(bad == "", "C38.range", "parseDSA", f, "0 < Y < P", bad)
-		c.mustCross("C38.range", "parseDSA parameters", f, acceptReturns(f, 2), callSuccess(callsNamed(f, "ssh.checkDSAParams"), -1, isNil), "checkDSAParams == nil")
+		c.c38RangeDSA(f)
+		c.c38DSAParams(f)
 	}
 	if f := c.fn("ssh", "parseED25519"); f != nil {
-		sz := int64(32)
-		bad := ""
-		var ln ssa.Value
-		allInstrs(f, func(in ssa.Instruction) {
-			if call, ok := in.(*ssa.Call); ok && calleeName(&call.Call) == "builtin:len" {
-				if _, fld, _, ok := fieldOf(call.Call.Args[0]); ok && fld == "KeyBytes" {
-					ln = call
-				}
-			}
-		})
-		if ln == nil {
-			bad = "key length not tested"
-		} else {
-			for _, n := range []int64{0, 31, 32, 33, 64} {
-				e := newEnv()
-				e.bind(ln, n)
-				e.bindNilTests(f, func(v ssa.Value) bool { return strings.HasSuffix(v.Type().String(), "error") }, true)
-				e.solve(f)
-				got := false
-				for _, t := range acceptReturns(f, 2) {
-					if e.reach[t.Block()] {
-						got = true
-					}
-				}
-				if got != (n == sz) {
-					bad = fmt.Sprintf("key of %d bytes accepted=%v", n, got)
-				}
-			}
-		}
-		c.check(bad == "", "C38.range", "parseED25519", f, "exactly 32 key bytes", bad)
+		c.c38RangeEd25519(f)
 	}
 }
 
